@@ -9,20 +9,23 @@ PROPERTY = 'C13'
 CLASSES = ['Server', 'AsyncServer', 'Client', 'AsyncClient']
 # event palette: ordinary, ordinary identifier-like, reserved ones
 EVENTS = ['ev', 'connect', 'disconnect', 'connect_error', 'message']
+# '*' as the *name* of an incoming event / of the namespace it arrives on (the peer chooses both): it is an ordinary name
+# there, not a registration, so only catch-all targets can match and they get it prepended like any other name
+STAR = '*'
 
 
 def ref_resolve(table, nstable, reserved, event, ns, args):
     """Spec-derived resolution (property text). table[(namespace, event)] -> tag,
     nstable[namespace] -> tag. Returns (tag, args) or (None, None)."""
-    if (ns, event) in table:
+    if ns != STAR and event != STAR and (ns, event) in table:
         return table[(ns, event)], args
-    if event not in reserved and (ns, '*') in table:
+    if ns != STAR and event not in reserved and (ns, '*') in table:
         return table[(ns, '*')], (event,) + args
-    if ('*', event) in table:
+    if event != STAR and ('*', event) in table:
         return table[('*', event)], (ns,) + args
     if event not in reserved and ('*', '*') in table:
         return table[('*', '*')], (event, ns) + args
-    if ns in nstable:
+    if ns != STAR and ns in nstable:
         return nstable[ns], args
     if '*' in nstable:
         return nstable['*'], (ns,) + args
@@ -36,7 +39,7 @@ def h(t, part):
     is_server = 'Server' in cname
     calls = []
     reserved = ['connect', 'disconnect'] if is_server else ['connect', 'connect_error', 'disconnect']
-    ns = t.pick(['/', '/a'])
+    ns = part['ns'] if 'ns' in part else t.pick(['/', '/a'])
     bits = [t.bool() for _ in range(6)]
     unrelated = t.bool()
     coro_handlers = t.bool() if is_async else False
@@ -101,6 +104,8 @@ def h(t, part):
         table, nstable = {}, {}
         keys = [(ns, event), (ns, '*'), ('*', event), ('*', '*')]
         for i, key in enumerate(keys):
+            if (event == STAR and i in (0, 2)) or (ns == STAR and i in (0, 1)):
+                continue            # a name that is '*' cannot be registered for specifically
             if bits[i]:
                 tag = 'fn%d' % i
                 table[key] = tag
@@ -108,10 +113,10 @@ def h(t, part):
         if unrelated:
             table[(ns, 'other')] = 'other'
             obj.on('other', target('other'), namespace=ns)
-        if bits[4]:
+        if bits[4] and ns != STAR and event != STAR:
             nstable[ns] = 'cls'
             obj.register_namespace(mkns('cls', ns, nsbase))
-        if bits[5]:
+        if bits[5] and event != STAR:
             nstable['*'] = 'clsstar'
             obj.register_namespace(mkns('clsstar', '*', nsbase))
 
@@ -152,6 +157,8 @@ def parts(tier):
                 continue
             out.append({'cls': c, 'ev': e})
         out.append({'cls': c, 'ev': 'disconnect', 'legacy': True})
+        out.append({'cls': c, 'ev': STAR})                       # the peer names its event '*'
+        out.append({'cls': c, 'ev': 'ev', 'ns': STAR})          # ... or the namespace
     return out
 
 
@@ -164,7 +171,7 @@ META = dict(
                      '{ev,message,connect,disconnect,connect_error} x sync/coroutine targets x arguments (symbolic int -3..3, optional '
                      'symbolic str len<=2)',
             'thorough': 'same (the space is exhausted in the quick tier already)'},
-    outside=['event and namespace names outside the palette', 'legacy handlers other than function handlers for disconnect', 'class namespaces lacking the on_<event> method'],
+    outside=['event and namespace names outside the palette (which includes the name "*" for either)', 'legacy handlers other than function handlers for disconnect', 'class namespaces lacking the on_<event> method'],
     stubs=['engine.io server/client replaced by vf.stubs fakes (not exercised here)', 'asyncio -> vf.miniloop (FIFO)',
            'logging -> null logger'],
     assumptions=['event and namespace names are drawn from a concrete palette; arguments are symbolic leaves'],
